@@ -26,7 +26,7 @@ Theorem converges_refutation_witnesses :
 Proof. exact witnesses_all. Qed.
 Print Assumptions converges_refutation_witnesses.
 
-(* The strongest restriction proved: histories that never introduce an unparseable document
+(* First restriction proved: histories that never introduce an unparseable document
    ([parse_ok_init], [parse_ok_label]; any edits, creates, deletes, renames and config changes, any
    job-atomic schedule incl. the rate limiter dropping jobs), ending with a number of modules other
    than one.  Then every URI's last published diagnostics are a permutation of the fresh lint, and
@@ -44,6 +44,33 @@ Theorem converges_job_atomic_partial :
       (forall u, contents s u = None -> pub s u = []).
 Proof. exact converges_job_atomic_partial_closed. Qed.
 Print Assumptions converges_job_atomic_partial.
+
+(* Second restriction proved: histories WITHOUT config change but with arbitrary documents (a file may stop
+   parsing and parse again later, as while typing).  At quiescence, if every file of the workspace parses
+   and the number of modules is not one, the published diagnostics are the fresh lint. *)
+Theorem converges_job_atomic_partial_noconfig :
+  forall (U : list uri) parses perr fdiags areport nonagg agg,
+    linter_ok parses perr fdiags areport nonagg agg ->
+    forall (f : fmap content) (k : cfg) (ls : list label) (s : state),
+      in_universe_init U f ->
+      Forall (job_atomic_label U) ls -> Forall no_config_label ls ->
+      run U parses perr fdiags areport nonagg agg current ls (init_state parses f k) = Some s ->
+      quiescent s ->
+      count_modules U s <> 1%nat ->
+      (forall u c, contents s u = Some c -> parses c = true) ->
+      (forall u, Permutation (pub s u) (fresh U parses perr fdiags areport (contents s) (conf s) u)) /\
+      (forall u, contents s u = None -> pub s u = []).
+Proof. exact converges_job_atomic_noconfig_closed. Qed.
+Print Assumptions converges_job_atomic_partial_noconfig.
+
+Example converges_partial_noconfig_nonvacuous :
+  Forall (job_atomic_label wU) ex_history2 /\ Forall no_config_label ex_history2 /\
+  match w_run current [(0, 0); (1, 1); (2, 1)] ex_history2 with
+  | Some s => quiescentb s = true /\ count_modules wU s = 3%nat /\ pub s 1 = [(1, 30)] /\
+              forallb (fun u => match contents s u with Some c => w_parses c | None => true end) wU = true
+  | None => False
+  end.
+Proof. exact ex_history2_ok. Qed.
 
 (* non-vacuity: a history (edit, rename, config change, edit, delete) on the concrete linter that meets
    the hypotheses and ends quiescent with two modules *)
